@@ -549,6 +549,19 @@ def fact_partition_cross_store_copied(repo):
         return None
 
 
+def fact_code_hash_refreshed(repo):
+    """MementoFunctionHashRule.compute_hash brings the memento function's code hash up to date (refresh_code_hash, or a
+    fresh fn_code_hash) instead of returning the value cached when the function was defined"""
+    try:
+        fn = _cls_fn(repo, "code_hash.py", "MementoFunctionHashRule", "compute_hash")
+        names = _calls(fn)
+        if "refresh_code_hash" in names or "fn_code_hash" in names:
+            return True
+        return False
+    except Exception:
+        return None
+
+
 def fact_scope_follows_memento_fn(repo):
     """below a memento function the package scope is (re)bound to that function's own package, as a fresh set (no shared mutation)"""
     try:
@@ -728,6 +741,11 @@ def _f26(repo):
 @fact("anonymous_helpers_distinct", "option bool")
 def _f27(repo):
     return _opt_bool(fact_anonymous_helpers_distinct(repo))
+
+
+@fact("code_hash_refreshed", "option bool")
+def _f29(repo):
+    return _opt_bool(fact_code_hash_refreshed(repo))
 
 
 @fact("partition_cross_store_copied", "option bool")
